@@ -237,6 +237,20 @@ class SerializedFileBufferedCollection(FileBufferedCollection):
             if type(self)._CURRENT_BUFFER_SIZE > type(self)._BUFFER_CAPACITY:
                 type(self)._flush_buffer(force=True)
 
+    def _load(self):
+        """Load data, serialized with flushes of the buffer.
+
+        A capacity-forced flush running on another thread updates the data of
+        every buffered collection in place (see :meth:`_flush`). While buffered,
+        the whole load, including the in-place update of this collection's
+        data, must therefore happen under the buffer lock.
+        """
+        if self._root is None and self._is_buffered:
+            with self._buffer_lock:
+                super()._load()
+        else:
+            super()._load()
+
     def _load_from_buffer(self):
         """Read data from buffer.
 
